@@ -171,6 +171,8 @@ def o_chunked(case):
         cls.add("layered-compression")
     if any(case.get("gaps") or []):
         cls.add("timeouts-between-receives")
+    if case.get("longdist"):
+        cls.add("long-distance-back-references")
     if len(expected) > 1024 * 1024:
         cls.add("chunk-decoding-to-more-than-1MiB")
     if case["enc"] != "none" and case.get("wbits", 15) != 15:
@@ -289,6 +291,12 @@ def e_big(tier, shard, nshards):
                 continue
             body = (b"RTCM" * 256) * (size // 1024)
             yield {"chunks": [body.hex(), b"tail".hex()], "enc": enc, "hexcase": [0], "terminator": True, "mode": "generated", "cuts": [100, 2000], "bufsize": 4096, "gaps": []}
+            # incompressible blocks repeated at distances of 5 / 9 / 20 / 30 KiB (back-references across the whole 32 KiB window)
+            import hashlib
+
+            for dist in (5000, 9000, 20000, 30000):
+                blk = b"".join(hashlib.blake2b(f"{dist}|{j}".encode(), digest_size=64).digest() for j in range(dist // 64 + 1))[:dist]
+                yield {"chunks": [(blk * 3).hex(), b"tail".hex()], "enc": enc, "hexcase": [0], "terminator": True, "mode": "generated", "cuts": [100, 2000], "bufsize": 4096, "gaps": [], "longdist": dist}
 
 
 def _short(c):
